@@ -300,6 +300,7 @@ c = contract("server.AppNamespace.open_mailbox", cls="AppNamespace",
 def _(c):
     yield "id_not_foreign", id_not_foreign(c.pre, c.sf("_app_id"), c.a.t("mailbox_id"))
     yield "registry_wf", registry_wf(c.pre, c.self_ref)
+    yield "not_from_future", I.not_from_future(c.pre, c.a.t("when"))
 
 
 def side_row_post(S0, S1, mid, side, when):
@@ -373,6 +374,14 @@ def _(c):
     yield "when", crowded(c.post, c.a.t("mailbox_id"))
     for n, t, tags in open_mailbox_post(c, None):
         yield n, t
+    # C05 "the first two sides keep their access": only a side that arrived after two others is refused (F8)
+    ms1 = c.post.t(MS)
+    mid, side = c.a.t("mailbox_id"), c.a.t("side")
+    mine = lambda r: And(ms1.live[r], ms1.cols["mailbox_id"][r] == mid, ms1.cols["side"][r] == side)
+    other = lambda r: And(ms1.live[r], ms1.cols["mailbox_id"][r] == mid, ms1.cols["side"][r] != side)
+    yield "refused_is_latecomer", FA([INT], lambda r: Implies(mine(r), EX([INT, INT], lambda x, y: And(
+        other(x), other(y), x != y, ms1.cols["added"][x] <= ms1.cols["added"][r],
+        ms1.cols["added"][y] <= ms1.cols["added"][r])))), {"assume": False}
 
 
 # ------------------------------------------------ claim_nameplate
@@ -382,13 +391,13 @@ c = contract("server.AppNamespace.claim_nameplate", cls="AppNamespace",
              modifies=CLAIM_MOD, tags=["C03", "C05", "C07", "C09", "C10", "C14", "C17"])
 
 
-def core_for_claim(S):
-    return [("I1", I.I1(S)), ("I2", I.I2(S)), ("I3", I.I3(S)), ("I4", I.I4(S)), ("I5", I.I5(S)), ("I6", I.I6(S))]
+def core_for_claim(S, when=None):
+    return ([("not_from_future", I.not_from_future(S, when))] if when is not None else []) + [("I1", I.I1(S)), ("I2", I.I2(S)), ("I3", I.I3(S)), ("I4", I.I4(S)), ("I5", I.I5(S)), ("I6", I.I6(S))]
 
 
 @c.requires
 def _(c):
-    yield from core_for_claim(c.pre)
+    yield from core_for_claim(c.pre, c.a.t("when"))
     yield "clean_ch", Not(c.pre.in_tx["ch"])
     yield "registry_wf", registry_wf(c.pre, c.self_ref)
 
@@ -496,7 +505,7 @@ c = contract("server.AppNamespace.allocate_nameplate", cls="AppNamespace",
 
 @c.requires
 def _(c):
-    yield from core_for_claim(c.pre)
+    yield from core_for_claim(c.pre, c.a.t("when"))
     yield "clean_ch", Not(c.pre.in_tx["ch"])
     yield "registry_wf", registry_wf(c.pre, c.self_ref)
 
@@ -607,3 +616,180 @@ def _(c):
 I.add_preserves(_R["server.AppNamespace.claim_nameplate"], raises=["CrowdedError"])
 I.add_preserves(_R["server.AppNamespace.allocate_nameplate"])
 I.add_preserves(_R["server.AppNamespace.release_nameplate"])
+
+
+# ------------------------------------------------ prune
+PRUNE_MOD = [MB, MS, MSG, NP, NS, UNP, UMB, "in_tx.ch", "in_tx.us"]
+c = contract("server.AppNamespace.prune", cls="AppNamespace", params={"now": "real", "old": "real"}, result="bool",
+             modifies=PRUNE_MOD, tags=["C01", "C06", "C09", "C10", "C12", "C13", "C15", "C16", "C17"])
+I.add_preserves(c)
+
+
+def has_listeners(S, M):
+    ls = hp(S, "Mailbox._listeners")[M]
+    return EX([INT], lambda h: ls[h])
+
+
+def touched(S, me):
+    """ids of the mailboxes this namespace holds an object with listeners for"""
+    m = hp(S, "AppNamespace._mailboxes")[me]
+    return lambda y: And(m[y] != 0, has_listeners(S, m[y]))
+
+
+@c.requires
+def _(c):
+    S = c.pre
+    me = c.self_ref
+    a = c.sf("_app_id")
+    yield "clean", I.Clean(S)
+    yield "registry_wf", registry_wf(S, me)
+    yield "old_before_now", c.a.t("old") < c.a.t("now")
+    # the subscribed mailboxes of this namespace are rows of this app (from H4/H5 and the key on mailboxes.id)
+    T = touched(S, me)
+    yield "touch_own", S.t(MB).none(lambda r: And(T(r.id), r.app_id != a))
+
+
+def prune_sets(c):
+    S0 = c.pre
+    a, now, old = c.sf("_app_id"), c.a.t("now"), c.a.t("old")
+    T = touched(S0, c.self_ref)
+    mb0 = S0.t(MB)
+    upd1 = lambda r: If(T(mb0.cols["id"][r]), now, mb0.cols["updated"][r])
+    oldrow = lambda r: And(mb0.live[r], mb0.cols["app_id"][r] == a, upd1(r) <= old)
+    oldid = lambda y: EX([INT], lambda r: And(oldrow(r), mb0.cols["id"][r] == y))
+    return T, upd1, oldrow, oldid
+
+
+@c.ensures
+def _(c):
+    S0, S1 = c.pre, c.post
+    a, now, old = c.sf("_app_id"), c.a.t("now"), c.a.t("old")
+    T, upd1, oldrow, oldid = prune_sets(c)
+    mb0, mb1, np0 = S0.t(MB), S1.t(MB), S0.t(NP)
+    # C12/C13: a mailbox of this app goes iff, after subscribed ones were touched, its last activity is not
+    # newer than `old`; survivors keep everything, subscribed ones get updated=now
+    yield "mailboxes", FA([INT], lambda r: And(
+        mb1.live[r] == And(mb0.live[r], Not(oldrow(r))),
+        Implies(mb1.live[r], And(mb1.cols["updated"][r] == upd1(r), mb1.cols["app_id"][r] == mb0.cols["app_id"][r],
+                                 mb1.cols["id"][r] == mb0.cols["id"][r],
+                                 mb1.cols["for_nameplate"][r] == mb0.cols["for_nameplate"][r]))),
+        pats=lambda r: [mb1.live[r], mb0.live[r]]), ["C12", "C13", "C06"]
+    yield "delete_complete.mailbox_sides", is_delete(S0.t(MS), S1.t(MS), lambda r: oldid(r.mailbox_id)), ["C12", "C13", "C06"]
+    yield "delete_complete.messages", is_delete(S0.t(MSG), S1.t(MSG), lambda r: oldid(r.mailbox_id)), ["C12", "C13", "C01", "C06"]
+    oldnp = lambda n: And(np0.live[n], np0.cols["app_id"][n] == a, oldid(np0.cols["mailbox_id"][n]))
+    yield "delete_complete.nameplates", is_delete(np0, S1.t(NP), lambda r: oldnp(r.r)), ["C12", "C13", "C07", "C06"]
+    yield "delete_complete.nameplate_sides", is_delete(S0.t(NS), S1.t(NS), lambda r: oldnp(r.nameplates_id)), ["C12", "C13", "C07", "C06"]
+    nothing = Not(EX([INT], oldrow))
+    yield "usage_only_on_retirement", Implies(Or(nothing, Not(H.CFG_USAGE)),
+                                              And(tbl_eq(S0.t(UNP), S1.t(UNP)), tbl_eq(S0.t(UMB), S1.t(UMB)))), ["C15", "C18"]
+    yield "committed", I.Clean(S1), ["C09"]
+    m = hp(S0, "AppNamespace._mailboxes")[c.self_ref]
+    yield "in_use_iff_mailbox_objects", to_term(c.result, "bool") == EX([Str], lambda k: m[k] != 0), ["C02", "C12", "C15"]
+
+
+@c.loop(0, modifies=[MB, "in_tx.ch"], tags=["C12"])
+def _(c, L):
+    """touch loop: the rows of the registered mailboxes processed so far that have listeners carry updated=now"""
+    E, S = L.entry, c.post
+    me = c.self_ref
+    m = hp(E, "AppNamespace._mailboxes")[me]
+    yield "touched_done", is_update(E.t(MB), S.t(MB), lambda r: And(L.done(r.id), has_listeners(E, m[r.id])),
+                                    {"updated": c.a.t("now")})
+    yield "in_tx_us", S.in_tx["us"] == E.in_tx["us"]
+
+
+@c.loop(3, modifies=[NS, NP, UNP, "in_tx.ch", "in_tx.us"], locals_=[("modified", "bool")], tags=["C13", "C12", "C15"])
+def _(c, L):
+    """nameplate deletion loop: the old nameplates processed so far and their side rows are gone, nothing else"""
+    E, S = L.entry, c.post
+    yield "nameplates_of_done_gone", is_delete(E.t(NP), S.t(NP), lambda r: L.done(r.r))
+    yield "sides_of_done_gone", is_delete(E.t(NS), S.t(NS), lambda r: L.done(r.nameplates_id))
+    quiet = Or(Not(H.CFG_USAGE), L.k == 0)
+    yield "usage_quiet", Implies(quiet, And(tbl_eq(E.t(UNP), S.t(UNP)), S.in_tx["us"] == E.in_tx["us"]))
+    yield "usage_pending", Implies(Not(quiet), to_term(L.var("modified"), "bool"))
+    yield "modified", Implies(L.k > 0, to_term(L.var("modified"), "bool"))
+    yield "modified_or_clean", Implies(Not(to_term(L.var("modified"), "bool")),
+                                       And(S.in_tx["ch"] == E.in_tx["ch"], S.in_tx["us"] == E.in_tx["us"]))
+
+
+@c.loop_step(3)
+def _(c, L, head):
+    """one iteration retires exactly the nameplate npid: its rows go and, with a usage DB, exactly
+    one `pruney`-capable summary of its side rows is recorded (C15)"""
+    from pvc.state import is_insert_where
+    S = c.post
+    n = to_term(L.elem, "int")
+    a, now = c.sf("_app_id"), c.a.t("now")
+    ns = head.t(NS)
+    member = lambda r: And(ns.live[r], ns.cols["nameplates_id"][r] == n)
+    added = lambda r: ns.cols["added"][r]
+    yield "one_usage_row", If(H.CFG_USAGE,
+                              is_insert_where(head.t(UNP), S.t(UNP), lambda row: And(row.app_id == a, *[
+                                  t for _, t, _ in np_summary_spec(None, now, BoolVal(True), *row_usage(row),
+                                                                   member=member, added=added)])),
+                              tbl_eq(head.t(UNP), S.t(UNP))), ["C15", "C16"]
+
+
+@c.loop(4, modifies=[MSG, MS, MB, UMB, "in_tx.ch", "in_tx.us"], locals_=[("modified", "bool")], tags=["C13", "C12", "C15"])
+def _(c, L):
+    """mailbox deletion loop: the old mailboxes processed so far are gone with their messages and side rows"""
+    E, S = L.entry, c.post
+    yield "mailboxes_of_done_gone", is_delete(E.t(MB), S.t(MB), lambda r: L.done(r.id))
+    yield "sides_of_done_gone", is_delete(E.t(MS), S.t(MS), lambda r: L.done(r.mailbox_id))
+    yield "messages_of_done_gone", is_delete(E.t(MSG), S.t(MSG), lambda r: L.done(r.mailbox_id))
+    quiet = Or(Not(H.CFG_USAGE), L.k == 0)
+    yield "usage_quiet", Implies(quiet, And(tbl_eq(E.t(UMB), S.t(UMB)), S.in_tx["us"] == E.in_tx["us"]))
+    yield "modified", Implies(L.k > 0, to_term(L.var("modified"), "bool"))
+    yield "modified_keeps", Implies(to_term(L.entry_env["modified"], "bool"), to_term(L.var("modified"), "bool"))
+    yield "modified_or_clean", Implies(Not(to_term(L.var("modified"), "bool")),
+                                       And(S.in_tx["ch"] == E.in_tx["ch"], S.in_tx["us"] == E.in_tx["us"]))
+
+
+@c.loop_step(4)
+def _(c, L, head):
+    from pvc.state import is_insert_where
+    S = c.post
+    x = to_term(L.elem, "str")
+    a, now = c.sf("_app_id"), c.a.t("now")
+    ms, mb = head.t(MS), head.t(MB)
+    member = lambda r: And(ms.live[r], ms.cols["mailbox_id"][r] == x)
+    added = lambda r: ms.cols["added"][r]
+    mood_is = lambda r, sv: And(Not(ms.nulls["mood"][r]), ms.cols["mood"][r] == sv)
+    yield "one_usage_row", If(H.CFG_USAGE,
+                              is_insert_where(head.t(UMB), S.t(UMB), lambda row: And(
+                                  row.app_id == a,
+                                  mb.exists(lambda r: And(r.id == x, r.for_nameplate == row.for_nameplate)),
+                                  *[t for _, t, _ in mb_summary_spec(None, now, BoolVal(True), *row_usage(row),
+                                                                     member=member, added=added, mood_is=mood_is)])),
+                              tbl_eq(head.t(UMB), S.t(UMB))), ["C15", "C16"]
+
+
+# ------------------------------------------------ count_listeners
+from pvc.builtins import dictsum          # noqa: E402
+from pvc.symex import card                # noqa: E402
+cardarr = Function("cardarr", ArraySort(INT, ArraySort(INT, BOOL)), ArraySort(INT, INT))
+
+
+def cardarr_axiom(LSarr=None):
+    """cardarr(LS)[M] = |LS[M]|  (definition of the spec function, for every LS)"""
+    return FA([ArraySort(INT, ArraySort(INT, BOOL)), INT], lambda L_, M: cardarr(L_)[M] == card(L_[M]),
+              pats=lambda L_, M: [cardarr(L_)[M]])
+
+
+import pvc.zs as _zs     # noqa: E402
+_zs.EXTRA_AXIOMS.append(cardarr_axiom())
+
+
+def listener_total(S, app):
+    """sum over the Mailbox objects registered in namespace `app` of their listener-set sizes"""
+    return dictsum(cardarr(hp(S, "Mailbox._listeners")), hp(S, "AppNamespace._mailboxes")[app])
+
+
+c = contract("server.AppNamespace.count_listeners", cls="AppNamespace", params={}, result="int", modifies=[],
+             tags=["C15", "C17"])
+c.result_term = lambda c: listener_total(c.pre, c.self_ref)
+
+
+@c.ensures
+def _(c):
+    yield "sum_of_listener_counts", to_term(c.result, "int") == listener_total(c.pre, c.self_ref), ["C15"]
